@@ -536,6 +536,9 @@ matrix_new(PyTypeObject *type, PyObject *args, PyObject *kwds)
   if (nrows < 0 || ncols < 0)
     PY_ERR_TYPE("dimensions must be non-negative");
 
+  if (nrows > INT_MAX || ncols > INT_MAX)   /* dense dimensions are ints */
+    PY_ERR(PyExc_OverflowError, "dimensions are too large");
+
   if (tc && !(VALID_TC_MAT(tc))) PY_ERR_TYPE("tc must be 'i', 'd' or 'z'");
   int id = (tc ? TC2ID(tc) : -1);
 
